@@ -199,6 +199,11 @@ def run(chk: core.Check):
     drv = core.LeanDriver()
     try:
         n = 8 if quick else 48
+        # always-run regime cases: an unbounded parameter whose natural scale is tiny (amplitude ~ 1e-7 in float32) or huge
+        corpus = [{"backend": "zuko", "bounded": "off", "dtype": "float32", "d": 2, "lo": [0.0, -2.0], "hi": [2e-6, 3.0], "affine": True, "seed": 5, "train": True},
+                  {"backend": "zuko", "bounded": "off", "dtype": "float64", "d": 1, "lo": [0.0], "hi": [1e-14], "affine": True, "seed": 6, "train": True}]
+        for c in corpus[: 1 if quick else 2]:
+            check_flow(chk, c, tmp, drv)
         for i in range(n):
             check_flow(chk, gen_case(r, i), tmp, drv)
     finally:
